@@ -515,7 +515,7 @@ func c20Gen(rt *rapid.T) c20Case {
 		c.Opts = []c20Opt{{"protocol-version", al, c20Channel(rt, "protocol-version", true)}, {"max-protocol-version", "DSEv2", "flag"}}
 		c.Expect, c.WantVersion, c.Why = "serve", v, "numeric-alias"
 	case k == 4: // unknown version names
-		bad := rapid.SampledFrom([]string{"v6", "vv4", "", "DSEv3", "4.0", " v4", "v2", "v1", "dse", "v4 ", "0", "six"}).Draw(rt, "badversion")
+		bad := rapid.SampledFrom([]string{"v6", "vv4", "", "DSEv3", "4.0", " v4", "v2", "v1", "dse", "v4 ", "0", "six", "v65", "v66", "V66", "04", "v04", "2", "065", "+4", "4e0", "0x4", "DSEv02"}).Draw(rt, "badversion")
 		name := rapid.SampledFrom([]string{"protocol-version", "max-protocol-version"}).Draw(rt, "which")
 		c.Opts = []c20Opt{{name, bad, c20Channel(rt, name, bad != "")}}
 		c.Expect, c.Why = "refuse", "unknown-version-name"
